@@ -3,6 +3,7 @@ package c13
 import (
 	stdjson "encoding/json"
 	"fmt"
+	"go/token"
 	"math/rand"
 	"reflect"
 	"strings"
@@ -42,7 +43,7 @@ func shapeOK(m methDesc) bool {
 
 func (r regd) servable() bool {
 	tn := goTypeName(zoo[r.zid])
-	if tn == "" || tn[0] < 'A' || tn[0] > 'Z' {
+	if tn == "" || !token.IsExported(tn) {
 		return false
 	}
 	for _, m := range r.ms {
@@ -243,7 +244,7 @@ func enumerateExposure(thorough bool, emit func(string, []hx.T, []string)) {
 		k := int64(zid % 3)
 		for ni, nft := range nfTerms {
 			for gi, group := range groups {
-				if !thorough && (gi != (zid+ni)%3 || (zid+ni)%7 >= 4) {
+				if !thorough && (gi != (zid+ni)%3 || ((zid+ni)%7 >= 4 && !unicodeZoo[zid])) {
 					continue // quick: 4 of the 7 naming functions per entry, one group option each
 				}
 				reg, r := mkReg(k, zid, group, nft)
